@@ -17,7 +17,7 @@ import (
 // ---- scenarios (also the replay format) ----
 
 type scenario struct {
-	Kind    string `json:"kind"` // seq sched close evict
+	Kind    string `json:"kind"` // seq sched close evict finalize
 	Cfg     mcfg   `json:"cfg"`
 	History []bool `json:"history"` // frames written before the phase: true = IDR
 	// seq
@@ -29,6 +29,8 @@ type scenario struct {
 	// close
 	Order      string `json:"order,omitempty"` // recheck-first first-parked free
 	PostProbes bool   `json:"post_probes,omitempty"`
+	// finalize: the writer is parked inside the GateAt-th part finalize of the rotation
+	GateAt int `json:"gate_at,omitempty"`
 }
 
 type failure struct {
